@@ -40,7 +40,7 @@ class C09(Prop):
 
     def cases(self, tier, rng):
         gi = ImplGen(rng)
-        return [gi.impl_item() for _ in range(1500 if tier == 'quick' else 20000)] + [c[:2] for c in self.grid()]
+        return [gi.impl_item() for _ in range(1500 if tier == 'quick' else 100000)] + [c[:2] for c in self.grid()]
 
     def grid(self):
         out = []
